@@ -7,6 +7,10 @@ T: real ARSCResTableConfig._unpack_language_or_region / _pack_language_or_region
 S: oracle = AOSP ResTable_config packing written on a 16-bit field view (shares nothing with the
    model): for every language and every region of the property's domain, the configuration built
    from the AOSP-encoded word reports the string, and the string encodes to the word.
+   A second S/T stream ('history') drives ONE configuration object - parsed from a binary ResTable_config or
+   keyword-constructed - through a seeded sequence of set_language_and_region / direct `.locale` writes /
+   queries: after every step the reported string must be the one most recently encoded and must re-encode
+   to the current word (the model is a pure function of the word, hence history-independent).
 The model and theorems describe the code with fixes/C30-pack-three-letter-locale.diff applied."""
 import io
 import itertools
@@ -15,6 +19,16 @@ import os
 import struct
 
 from harness.fw import VERIF, Check, Driver
+
+PINS = [
+    ("androguard/core/axml/__init__.py", "ARSCResTableConfig.__init__"),
+    ("androguard/core/axml/__init__.py", "ARSCResTableConfig._unpack_language_or_region"),
+    ("androguard/core/axml/__init__.py", "ARSCResTableConfig._pack_language_or_region"),
+    ("androguard/core/axml/__init__.py", "ARSCResTableConfig.set_language_and_region"),
+    ("androguard/core/axml/__init__.py", "ARSCResTableConfig.get_language_and_region"),
+    ("androguard/core/axml/__init__.py", "ARSCResTableConfig.get_qualifier"),
+    ("androguard/core/axml/__init__.py", "ARSCResTableConfig.get_config_name_friendly"),
+]
 
 LOWER = [chr(c) for c in range(97, 123)]
 UPDIG = [chr(c) for c in range(65, 91)] + [chr(c) for c in range(48, 58)]
@@ -138,6 +152,152 @@ def domain():
     return langs2, langs3, regs2, regs3
 
 
+
+# ----------------------------------------------------------------- histories on one object
+CFG_SIZES = (16, 28, 32, 36, 48, 52, 64)
+
+
+def config_blob(size: int, word: int) -> bytes:
+    """a binary ResTable_config of `size` bytes whose only non-zero field is the locale word"""
+    return struct.pack("<III", size, 0, word) + b"\0" * (size - 12)
+
+
+def make_origin(real: Real, origin):
+    kind = origin[0]
+    if kind == "parsed":
+        return real.axml.ARSCResTableConfig(io.BytesIO(config_blob(origin[1], origin[2])))
+    if kind == "kw-str":
+        return real.axml.ARSCResTableConfig(None, locale=dec(origin[1]))
+    if kind == "kw-int":
+        return real.axml.ARSCResTableConfig(None, locale=origin[1])
+    return real.axml.ARSCResTableConfig(None)
+
+
+def text_of_word(word, table):
+    return "\x00\x00" if word == 0 else table[word]
+
+
+def run_history(real: Real, origin, ops, table, trace=None):
+    """Executes the history on one real object.  Oracle: `word` is the word most recently encoded (by the
+    origin, a set or a write), `table[word]` the string that encodes to it.  Returns None or
+    (step index, what, expected, observed).  `trace` collects (request for the model, real reply) pairs."""
+    try:
+        cfg = make_origin(real, origin)
+    except Exception as e:  # noqa
+        return (-1, "constructing the configuration raises", "an object", type(e).__name__)
+    word = origin[2] if origin[0] == "parsed" else origin[1] if origin[0] == "kw-int" else 0
+    if origin[0] == "kw-str":
+        word = aosp_word(*split_text(dec(origin[1])))
+    for i, op in enumerate(ops):
+        try:
+            if op[0] == "set":
+                text = dec(op[1])
+                cfg.set_language_and_region(text)
+                word = aosp_word(*split_text(text))
+                if trace is not None:
+                    trace.append((f"set {op[1]}", str(cfg.locale)))
+                if cfg.locale != word:
+                    return (i, "set_language_and_region stores a different word", f"0x{word:08x}", f"0x{cfg.locale:08x}")
+            elif op[0] == "write":
+                cfg.locale = word = op[1]
+            else:
+                want = text_of_word(word, table)
+                if op[0] == "get":
+                    got = cfg.get_language_and_region()
+                    if trace is not None:
+                        trace.append((f"get {cfg.locale}", enc(got)))
+                else:
+                    got = cfg.get_qualifier() if op[0] == "qual" else cfg.get_config_name_friendly()
+                    want = "" if word == 0 else want
+                if got != want:
+                    return (i, f"{op[0]}: the reported locale is not the one most recently encoded", want, got)
+                if op[0] == "get":
+                    again = real.axml.ARSCResTableConfig(None, locale=got).locale
+                    if again != cfg.locale or cfg.locale != word:
+                        return (i, "re-encoding the reported string does not give the current word",
+                                f"0x{word:08x}", f"re-encoded 0x{again:08x}, .locale 0x{cfg.locale:08x}")
+        except Exception as e:  # noqa
+            return (i, f"{op[0]} raises", "no exception", type(e).__name__)
+    return None
+
+
+def split_text(text: str):
+    if text == "\x00\x00":
+        return ("", "")
+    l, _, r = text.partition("-r")
+    return (l, r)
+
+
+def shrink_history(real, origin, ops, table):
+    bad = run_history(real, origin, ops, table)
+    ops = ops[: bad[0] + 1] if bad and bad[0] >= 0 else ops
+    i = 0
+    while i < len(ops) - 1:
+        cand = ops[:i] + ops[i + 1:]
+        if run_history(real, origin, cand, table):
+            ops = cand
+        else:
+            i += 1
+    return ops
+
+
+def history_stream(ck: Check, real: Real, drv, pairs):
+    rng = ck.rng
+    deep = (not ck.quick) or getattr(ck, "escalated", False)
+    n = 60000 if deep else 4000
+    pool = [pairs[rng.randrange(len(pairs))] for _ in range(400)] + [("fil", ""), ("fil", "PH"), ("es", "419"), ("en", "US"), ("fr", "FR"), ("en", "")]
+    table = {aosp_word(l, r): dir_name(l, r) for l, r in pool}
+    words = sorted(table) + [0, 0]
+    texts = [enc(t) for t in table.values()] + [enc("\x00\x00")]
+    dist = {"hist_parsed": 0, "hist_kw": 0, "hist_ops": 0, "hist_mutations": 0, "hist_queries": 0}
+    trace, nbad, distinct = [], 0, set()
+    for _ in range(n):
+        k = rng.random()
+        if k < 0.55:
+            origin = ["parsed", rng.choice(CFG_SIZES), rng.choice(words)]
+        elif k < 0.75:
+            origin = ["kw-str", rng.choice(texts)]
+        elif k < 0.9:
+            origin = ["kw-int", rng.choice(words)]
+        else:
+            origin = ["kw-none"]
+        ops = []
+        for _ in range(rng.randrange(1, 13)):
+            c = rng.random()
+            if c < 0.28:
+                ops.append(["set", rng.choice(texts)])
+            elif c < 0.42:
+                ops.append(["write", rng.choice(words)])
+            elif c < 0.75:
+                ops.append(["get"])
+            elif c < 0.9:
+                ops.append(["qual"])
+            else:
+                ops.append(["friendly"])
+        if ops[-1][0] in ("set", "write"):
+            ops.append(["get"])
+        dist["hist_parsed" if origin[0] == "parsed" else "hist_kw"] += 1
+        dist["hist_ops"] += len(ops)
+        dist["hist_mutations"] += sum(1 for o in ops if o[0] in ("set", "write"))
+        dist["hist_queries"] += sum(1 for o in ops if o[0] not in ("set", "write"))
+        distinct.add(("h", json.dumps([origin, ops])))
+        bad = run_history(real, origin, ops, table, trace)
+        if bad and nbad < 5:
+            nbad += 1
+            small = shrink_history(real, origin, ops, table)
+            b2 = run_history(real, origin, small, table) or bad
+            used = {o[1] for o in small if o[0] == "write"} | ({origin[2]} if origin[0] == "parsed" else {origin[1]} if origin[0] == "kw-int" else set())
+            used |= {aosp_word(*split_text(dec(o[1]))) for o in small if o[0] == "set"}
+            ck.fail({"history": {"origin": origin, "ops": small, "table": {str(w): enc(table[w]) for w in sorted(used) if w in table}}, "step": b2[0]},
+                    "one configuration object, re-targeted and queried: " + b2[1], None, b2[2], b2[3])
+    reqs = [t[0] for t in trace]
+    ck.compare("locale-history", reqs, [t[1] for t in trace], drv.ask(reqs))
+    ck.cover(evaluations=n, distinct=distinct, dist=dist,
+             samples=[{"history": "parsed(fr-rFR) ; set('fil') ; get", "expect": "fil"}])
+    ck.notes.append("history stream: objects parsed from bytes and keyword-constructed, <= 13 operations each; the model "
+                    "(pure functions of the locale word) is history-independent, so any dependence of a reply on earlier "
+                    "operations or on the object's origin is a divergence")
+
 # ----------------------------------------------------------------- run
 def corpus_cases():
     d = os.path.join(VERIF, "corpus", "C30")
@@ -151,6 +311,7 @@ def corpus_cases():
 
 def run(ck: Check):
     real = Real()
+    ck.pins_changed(PINS)
     ck.run_gen("locale")
     ck.prove(exes=["drv_C30"])
     drv = Driver("drv_C30")
@@ -197,6 +358,9 @@ def run(ck: Check):
              samples=[{"locale": dir_name(l, r), "word": "0x%08x" % aosp_word(l, r)}
                       for l, r in (pairs[0], pairs[len(pairs) // 2], pairs[-1], ("fil", "PH"), ("es", "419"))],
              dist=dict(dist, corpus=ncorp))
+
+    # ---- S/T: histories on one object
+    history_stream(ck, real, drv, pairs)
 
     # ---- T: correspondence
     reqs, rr = [], []
@@ -268,7 +432,19 @@ def run(ck: Check):
 def replay(ck: Check, rp):
     real = Real()
     c = rp.get("case") or rp.get("first_divergence") or {}
-    print("replay", c)
+    print("replay", {k: v for k, v in c.items() if k != "history"})
+    if "history" in c:
+        h = c["history"]
+        table = {int(w): dec(t) for w, t in h["table"].items()}
+        print("origin:", h["origin"])
+        for i, op in enumerate(h["ops"]):
+            print(f"  step {i}: {op[0]}", repr(dec(op[1])) if op[0] == "set" else ("0x%08x" % op[1] if op[0] == "write" else ""))
+        bad = run_history(real, h["origin"], h["ops"], table)
+        if bad:
+            print(f"FAILS at step {bad[0]}: {bad[1]}; expected {bad[2]!r}, observed {bad[3]!r}")
+            return 1
+        print("property holds on this history")
+        return 0
     if "lang" in c:
         lang, region = dec(c["lang"]), dec(c["region"])
         if c.get("default"):
